@@ -150,7 +150,14 @@ func runCreateBid(ctx *action.Context, tx action.RawTx) (bool, action.Response) 
 		return helpers.LogAndReturnFalse(ctx.Logger, bid_data.ErrExpiredBid, createBid.Tags(), err)
 	}
 
+	// the offer is a valid, non-negative amount of the default currency: a negative
+	// one would pay the bidder out of nothing, another currency cannot be compared
+	// with the active counter offer
 	offerCoin := createBid.Amount.ToCoin(ctx.Currencies)
+	defaultCurrency, ok := ctx.Currencies.GetCurrencyById(0)
+	if !ok || defaultCurrency.Name != createBid.Amount.Currency || !offerCoin.IsValid() {
+		return helpers.LogAndReturnFalse(ctx.Logger, action.ErrInvalidAmount, createBid.Tags(), errors.New("invalid offer amount"))
+	}
 
 	//6. get the active counter offer
 	activeCounterOffer, err := bidMasterStore.BidOffer.GetActiveOffer(bidConvId, bid_data.TypeCounterOffer)
